@@ -215,6 +215,62 @@ Proof.
     destruct (prest ++ ref) as [|r2 rr]; [contradiction|]. rewrite H1, H2. reflexivity.
 Qed.
 
+(* ---------- the scope lemma for the printer as it is now: no hypothesis on shadowing ------------ *)
+Lemma existsb_seq_false (f : nat -> bool) s n :
+  existsb f (seq s n) = false -> forall k, (s <= k < s + n)%nat -> f k = false.
+Proof.
+  intros H k Hk. destruct (f k) eqn:E; [|reflexivity].
+  assert (existsb f (seq s n) = true) by (apply existsb_exists; exists k; split; [apply in_seq; exact Hk|exact E]).
+  congruence.
+Qed.
+
+(* what must hold of the table for the reference to make sense at all *)
+Definition wf_target (st : symtab) (pkg ref_pkg ref : qname) : Prop :=
+  (qname_eqb pkg ref_pkg = true -> wf_ref st pkg ref)
+  /\ (qname_eqb pkg ref_pkg = false ->
+        ref_pkg <> [] /\ In ref_pkg (st_pkgs st) /\ is_type st (ref_pkg ++ ref) = true).
+
+Theorem scope_lemma_full st pkg ctx ref_pkg ref :
+  ref <> [] -> wf_target st pkg ref_pkg ref ->
+  resolve_printed st pkg ctx (context_ref_name_safe st pkg ctx ref_pkg ref) = Some (ref_pkg ++ ref).
+Proof.
+  intros Hne [Hsame Hother]. unfold context_ref_name_safe.
+  destruct (qname_eqb pkg ref_pkg) eqn:Ep.
+  - apply qname_eqb_eq in Ep. subst ref_pkg. specialize (Hsame eq_refl).
+    assert (Hty : is_type st (pkg ++ ref) = true).
+    { specialize (Hsame (length ref)). rewrite firstn_all in Hsame. apply Hsame.
+      destruct ref; [contradiction|cbn [length]; lia]. }
+    cbv zeta. destruct (capture_same st pkg ctx _ _) eqn:Ec.
+    + unfold resolve_printed. cbn [pn_abs pn_name]. rewrite Hty. reflexivity.
+    + unfold resolve_printed. cbn [pn_abs pn_name].
+      pose proof (scope_lemma_same_package st pkg ctx ref Hne Hsame) as L.
+      unfold context_ref_name in L. rewrite qname_eqb_refl in L. apply L.
+      unfold no_capture. cbv zeta. intros k Hk.
+      apply (existsb_seq_false _ _ _ Ec k). lia.
+  - destruct (Hother eq_refl) as (Hpne & Hin & Hty).
+    destruct ref_pkg as [|first prest]; [contradiction|]. cbn [hd].
+    destruct (capture_other st pkg ctx first) eqn:Ec.
+    + unfold resolve_printed. cbn [pn_abs pn_name]. rewrite Hty. reflexivity.
+    + unfold resolve_printed. cbn [pn_abs pn_name].
+      pose proof (scope_lemma_other_package st pkg ctx (first :: prest) ref first prest eq_refl Hne Ep Hin Hty) as L.
+      unfold context_ref_name in L. rewrite Ep in L. apply L.
+      unfold capture_other in Ec. apply orb_false_iff in Ec as [E1 E2]. split.
+      * intros k Hk. apply (existsb_seq_false _ _ _ E1 k). lia.
+      * intros k Hk. pose proof (existsb_seq_false _ _ _ E2 k ltac:(lia)) as H.
+        apply orb_false_iff in H. exact H.
+Qed.
+
+(* the printed name is never empty and, when relative, is what the stripping loop leaves *)
+Lemma safe_never_empty st ctx_pkg ctx ref_pkg ref : ref <> [] ->
+  pn_name (context_ref_name_safe st ctx_pkg ctx ref_pkg ref) <> [].
+Proof.
+  intro Hne. unfold context_ref_name_safe. destruct (qname_eqb ctx_pkg ref_pkg).
+  - cbv zeta. destruct (capture_same _ _ _ _ _); cbn [pn_name].
+    + intro E. apply app_eq_nil in E as [_ E]. contradiction.
+    + destruct (strip_common_spec ctx ref Hne) as (_ & _ & _ & _ & H). exact H.
+  - destruct (capture_other _ _ _ _); cbn [pn_name]; intro E; apply app_eq_nil in E as [_ E]; contradiction.
+Qed.
+
 (* ---------- where the hypotheses are needed: witnesses ------------------------------------- *)
 Local Open Scope N_scope.
 Definition nA : ident := [65]. Definition nB : ident := [66].
@@ -234,6 +290,11 @@ Proof. split; [vm_compute; reflexivity|]. split; [vm_compute; reflexivity|discri
 Definition svc : ident := [115;101;114;118;105;99;101]. Definition v1 : ident := [118; 49].
 Definition cross_table : symtab :=
   {| st_types := [[svc; v1; svc; nB]; [svc; v1; nA]]; st_pkgs := [[svc; v1; svc]; [svc; v1]] |}.
+
+Theorem shadow_now_absolute :
+  context_ref_name_safe shadow_table pkg_w [nA] pkg_w [nB] = {| pn_abs := true; pn_name := pkg_w ++ [nB] |}
+  /\ resolve_printed shadow_table pkg_w [nA] (context_ref_name_safe shadow_table pkg_w [nA] pkg_w [nB]) = Some (pkg_w ++ [nB]).
+Proof. split; vm_compute; reflexivity. Qed.
 
 Theorem cross_package_refuted :
   context_ref_name [svc; v1; svc] [nB] [svc; v1] [nA] = [svc; v1; nA]
